@@ -65,16 +65,18 @@ def expectShapes (t : TestIn) : List Shape :=
   ++ reasonShapes t.id t.result
   ++ [{ testId := some t.id, status := some (streamStatus t.result), fileName := none, fileBytes := none, eof := false, mime := none }]
 
-def statuses : List StreamEv → Option (List Event)
-  | .start :: rest =>
-    match rest.reverse with
-    | .stop :: mid => mid.reverse.mapM fun | .status e => some e | _ => none
-    | _ => none
-  | _ => none
+/-- cut the stream into its runs `startTestRun · status* · stopTestRun` (`cur` = the status events of the open run) -/
+def splitMid : Option (List Event) → List StreamEv → Option (List (List Event))
+  | none, [] => some []
+  | some _, [] => none
+  | none, .start :: r => splitMid (some []) r
+  | some acc, .status e :: r => splitMid (some (acc ++ [e])) r
+  | some acc, .stop :: r => (splitMid none r).map (acc :: ·)
+  | _, _ => none
 
 def cStreamWf (i : Convert.Input) (t : Convert.Trace) : Bool :=
-  match statuses t.mid with
-  | some es => es.map shape == (i.tests.map expectShapes).flatten
+  match splitMid none t.mid with
+  | some runs => Spec.C10.all2 (fun tests es => es.map shape == (tests.map expectShapes).flatten) i.runs runs
   | none => false
 
 /-! ### the round trip -/
@@ -83,8 +85,8 @@ structure Expect where
   outcome : Outcome
   tags : List Nat              -- the reporter's current tags at the outcome (as a set)
   details : List Detail        -- every detail with non-empty bytes: name, content type, concatenated bytes
-  tStart : Option Ts           -- the supplied time in force at startTest, if any was supplied so far
-  tEnd : Option Ts             -- … at the outcome
+  tStart : Ts                  -- the time in force at startTest: the last one supplied in THIS run, else the wall clock
+  tEnd : Ts                    -- … at the outcome
 deriving Repr
 
 /-- what must come out for a detail: nothing if it has no bytes at all -/
@@ -107,6 +109,11 @@ def lastTime (now : Option Nat) : Option Nat → Option Nat
   | some n => some n
   | none => now
 
+/-- the clock of a run: the last `time()` value supplied since its `startTestRun`, else the current time -/
+def clockOf : Option Nat → Ts
+  | some n => .t n
+  | none => .now
+
 /-- expectations per test, threading the reporter's run-level tags and last supplied time -/
 def expectTests : List Nat → Option Nat → List TestIn → List Expect
   | _, _, [] => []
@@ -115,21 +122,33 @@ def expectTests : List Nat → Option Nat → List TestIn → List Expect
     let now0 := lastTime now t.t0
     let now1 := lastTime now0 t.t1
     { id := t.id, outcome := replayOutcome t.result, tags := tagChange g' t.ltags, details := expectDetails t.result,
-      tStart := now0.map .t, tEnd := now1.map .t } :: expectTests g' now1 ts
+      tStart := clockOf now0, tEnd := clockOf now1 } :: expectTests g' now1 ts
 
 def matchesSeen (x : Expect) (s : Spec.C10.Seen) : Bool :=
   s.id == x.id && s.outcome == x.outcome && Spec.C10.sameSet s.tags x.tags && s.details == x.details
-    && Spec.C10.timeOk x.tStart s.tStart && Spec.C10.timeOk x.tEnd s.tEnd
+    && s.tStart == some x.tStart && s.tEnd == some x.tEnd
 
-/-- the final result sees, per test and in order, one well-formed bracket with the same id, the same outcome
-(error ↦ failure), the reporter's tags, the supplied times, the skip reason and every non-empty detail unchanged -/
+/-- cut the call log into its runs `startTestRun · … · stopTestRun` -/
+def splitExt : Option (List ExtEv) → List ExtEv → Option (List (List ExtEv))
+  | none, [] => some []
+  | some _, [] => none
+  | none, .startTestRun :: r => splitExt (some []) r
+  | some acc, .stopTestRun :: r => (splitExt none r).map (acc :: ·)
+  | some _, .startTestRun :: _ => none
+  | some acc, x :: r => splitExt (some (acc ++ [x])) r
+  | none, _ :: _ => none
+
+/-- the final result sees, per run, per test and in order, one well-formed bracket with the same id, the same outcome
+(error ↦ failure), the reporter's tags, the times in force — the last one supplied in that run, else the wall clock
+(`now`), never a time of an earlier run —, the skip reason and every non-empty detail unchanged -/
 def cRoundTrip (i : Convert.Input) (t : Convert.Trace) : Bool :=
-  match Spec.C10.body t.ext with
+  match splitExt none t.ext with
   | none => false
-  | some mid =>
-    match Spec.C10.interp {} mid with
-    | none => false
-    | some seen => Spec.C10.all2 matchesSeen (expectTests [] none i.tests) seen
+  | some bodies =>
+    Spec.C10.all2 (fun tests body =>
+      match Spec.C10.interp {} body with
+      | none => false
+      | some seen => Spec.C10.all2 matchesSeen (expectTests [] none tests) seen) i.runs bodies
 
 def clauses : List (String × (Convert.Input → Convert.Trace → Bool)) :=
   [("stream-wf", cStreamWf), ("roundtrip", cRoundTrip)]
